@@ -168,7 +168,7 @@ func (e *Engine) zeroResults(sig *types.Signature) []Value {
 }
 
 func isVerifFunc(fn *ssa.Function) bool {
-	n := fn.Name()
+	n := intrinsicName(fn)
 	return strings.HasPrefix(n, "verif_") || strings.HasPrefix(n, "spec_") || (len(n) > 1 && n[0] == 'v' && n[1] >= 'A' && n[1] <= 'Z' && intrinsicNames[n])
 }
 
@@ -176,15 +176,23 @@ var intrinsicNames = map[string]bool{
 	"vRequires": true, "vEnsures": true, "vAssert": true, "vAssume": true, "vForall": true, "vExists": true,
 	"vSameRegion": true, "vOffset": true, "vModifiesBytes": true, "vModifiesAll": true, "vFresh": true,
 	"vCanary": true, "vAllocs": true, "vUnreachable": true, "vModifiesObj": true, "vNoAlias": true, "vOpaque": true,
-	"vModifiesNothing": true, "vBorrowed": true, "vIsFreshRegion": true, "vModifiesHeap": true, "vStrictLen": true, "vAtEntry": true, "vKeptOrNew": true, "vWireCount": true, "vWireLast": true, "vModifiesWire": true, "vFuel": true, "vModifiesMems": true, "vReveal": true, "vModifiesField": true,
+	"vModifiesNothing": true, "vBorrowed": true, "vIsFreshRegion": true, "vModifiesHeap": true, "vStrictLen": true, "vAtEntry": true, "vKeptOrNew": true, "vWireCount": true, "vWireLast": true, "vModifiesWire": true, "vFuel": true, "vModifiesMems": true, "vReveal": true, "vModifiesField": true, "vMapAll": true,
+}
+
+// intrinsicName: the name of an intrinsic, with generic instantiations mapped to their origin.
+func intrinsicName(fn *ssa.Function) string {
+	if o := fn.Origin(); o != nil {
+		return o.Name()
+	}
+	return fn.Name()
 }
 
 func (e *Engine) callStatic(fr *Frame, st *State, callee *ssa.Function, args []Value, site ssa.Instruction) []Value {
-	name := callee.Name()
+	name := intrinsicName(callee)
 	if e.lenient && name == "init" && callee.Signature.Recv() == nil && callee.Parent() == nil && callee.Pkg != e.initPkg {
 		return nil
 	}
-	if intrinsicNames[name] && callee.Pkg != nil {
+	if intrinsicNames[name] && (callee.Pkg != nil || callee.Origin() != nil) {
 		return e.intrinsic(fr, st, callee, args, site)
 	}
 	// hole of the harness being verified: inline the real body
@@ -436,8 +444,10 @@ func (e *Engine) applyModifies(st *State, h *harnessCtx) {
 
 func (e *Engine) intrinsic(fr *Frame, st *State, callee *ssa.Function, args []Value, site ssa.Instruction) []Value {
 	h := fr.hctx
-	name := callee.Name()
+	name := intrinsicName(callee)
 	switch name {
+	case "vMapAll":
+		return []Value{scalar(e.mapQuantifier(fr, st, args, site, site.(ssa.CallInstruction).Common().Args[0].Type()))}
 	case "vRequires":
 		c := args[0].term()
 		if h != nil && h.mode == modeApply {
